@@ -565,4 +565,128 @@ example :
     m.atHeight "k" 5 = some 1 ∧ m.atHeight "k" 6 = some 3 ∧ m.atHeight "k" 7 = some 3 ∧ m.atHeight "k" 8 = none
     ∧ m.atHeight "j" 7 = none ∧ m.atHeight "j" 8 = some 8 := by decide
 
+
+/-! ## 4. What an accepted `UpdateMembers` does to the membership ("the true history", one call)
+
+The message documents: the `add` entries are applied (set weight), then the `remove` entries ("remove is applied
+after add, so if an address is in both, it is removed").  The monitor `C09/update-members-effect` evaluates
+exactly this on the implementation's observations. -/
+
+/-- The membership an `add` list produces, address by address (later entries win). -/
+def addsView (l : List (AddrArg × Nat)) (old : Option Nat) (k : Addr) : Option Nat :=
+  l.foldl (fun acc p => if p.1.text = k then some p.2 else acc) old
+
+theorem applyAdds_get {h : Nat} (l : List (AddrArg × Nat)) {m m' : SnapMap Addr Nat} {t t' : Nat} {ds : List Diff}
+    (hr : applyAdds h l m t = .ok (m', t', ds)) (k : Addr) : m'.get? k = addsView l (m.get? k) k := by
+  induction l generalizing m t ds with
+  | nil => simp [applyAdds] at hr; obtain ⟨rfl, _, _⟩ := hr; rfl
+  | cons p rest ih =>
+    obtain ⟨a, w⟩ := p
+    simp [applyAdds] at hr
+    obtain ⟨_, t1, _, t2, _, r, hr', rfl, rfl, rfl⟩ := hr
+    have := ih hr'
+    simp only [addsView, List.foldl_cons] at this ⊢
+    rw [this, SnapMap.get?_write]
+
+theorem applyRemoves_get {h : Nat} (l : List AddrArg) {m m' : SnapMap Addr Nat} {t t' : Nat} {ds : List Diff}
+    (hr : applyRemoves h l m t = .ok (m', t', ds)) (k : Addr) :
+    m'.get? k = if k ∈ l.map (·.text) then none else m.get? k := by
+  induction l generalizing m t ds with
+  | nil => simp [applyRemoves] at hr; obtain ⟨rfl, _, _⟩ := hr; simp
+  | cons a rest ih =>
+    simp only [applyRemoves, check_bind_ok] at hr
+    obtain ⟨_, hr⟩ := hr
+    split at hr
+    · rename_i hn
+      rw [ih hr]
+      by_cases hk : k = a.text
+      · subst hk; simp [hn]
+      · simp [hk]
+    · rename_i w hw
+      simp at hr
+      obtain ⟨_, r, t2, d2, hr', rfl, rfl, rfl⟩ := hr
+      rw [ih hr', SnapMap.get?_write]
+      by_cases hk : k = a.text
+      · subst hk; simp
+      · have : ¬ a.text = k := fun e => hk e.symm
+        simp [hk, this]
+
+/-- **Effect of an accepted `UpdateMembers`**, for every address: removed if named in `remove`; otherwise the weight
+of its `add` entry; otherwise unchanged. -/
+theorem update_members_effect {s s' : State} {h : Nat} {snd : Addr} {rem : List AddrArg} {add : List (AddrArg × Nat)}
+    {ds : List Diff} (hu : updateMembers s h snd rem add = .ok (s', ds)) (k : Addr) :
+    s'.members.get? k
+      = if k ∈ rem.map (·.text) then none else addsView (sortMembers add) (s.members.get? k) k := by
+  unfold updateMembers at hu
+  simp only [check_bind_ok] at hu
+  obtain ⟨_, _, hu⟩ := hu
+  split at hu
+  · simp at hu
+  · simp at hu
+    obtain ⟨m1, t1, d1, h1, m2, t2, d2, h2, rfl, rfl⟩ := hu
+    simp only
+    rw [applyRemoves_get rem h2 k, applyAdds_get _ h1 k]
+
+/-- With the uniqueness check of the handler the `add` view is simply "the entry of that address, if any". -/
+theorem addsView_mem {l : List (AddrArg × Nat)} (hn : (l.map (·.1.text)).Nodup) {a : AddrArg} {w : Nat}
+    (hm : (a, w) ∈ l) (old : Option Nat) : addsView l old a.text = some w := by
+  induction l generalizing old with
+  | nil => simp at hm
+  | cons p rest ih =>
+    simp only [List.map_cons, List.nodup_cons] at hn
+    simp only [addsView, List.foldl_cons]
+    rcases List.mem_cons.mp hm with rfl | hm'
+    · simp only [if_true]
+      -- no later entry names the same address
+      have : ∀ (r : List (AddrArg × Nat)) (acc : Option Nat), (∀ q ∈ r, q.1.text ≠ a.text) →
+          r.foldl (fun acc p => if p.1.text = a.text then some p.2 else acc) acc = acc := by
+        intro r
+        induction r with
+        | nil => intros; rfl
+        | cons q r ihr =>
+          intro acc hq
+          simp only [List.foldl_cons]
+          rw [if_neg (hq q (List.mem_cons_self ..))]
+          exact ihr acc (fun q' hq' => hq q' (List.mem_cons_of_mem _ hq'))
+      apply this
+      intro q hq he
+      exact hn.1 (List.mem_map.mpr ⟨q, hq, he⟩)
+    · exact ih hn.2 hm' _
+
+theorem addsView_not_mem {l : List (AddrArg × Nat)} {k : Addr} (hk : k ∉ l.map (·.1.text)) (old : Option Nat) :
+    addsView l old k = old := by
+  induction l generalizing old with
+  | nil => rfl
+  | cons p rest ih =>
+    simp only [List.map_cons, List.mem_cons, not_or] at hk
+    simp only [addsView, List.foldl_cons]
+    rw [if_neg (fun e => hk.1 e.symm)]
+    exact ih hk.2 old
+
+/-- The three cases of the documented semantics, in terms of the submitted lists themselves. -/
+theorem update_members_cases {s s' : State} {h : Nat} {snd : Addr} {rem : List AddrArg} {add : List (AddrArg × Nat)}
+    {ds : List Diff} (hu : updateMembers s h snd rem add = .ok (s', ds)) :
+    (∀ a ∈ rem, s'.members.get? a.text = none)
+    ∧ (∀ a w, (a, w) ∈ add → a.text ∉ rem.map (·.text) → s'.members.get? a.text = some w)
+    ∧ (∀ k, k ∉ rem.map (·.text) → k ∉ add.map (·.1.text) → s'.members.get? k = s.members.get? k) := by
+  have hun : uniqueMembers add = true := by
+    unfold updateMembers at hu; simp only [check_bind_ok] at hu; exact hu.1
+  refine ⟨?_, ?_, ?_⟩
+  · intro a ha
+    rw [update_members_effect hu, if_pos (List.mem_map.mpr ⟨a, ha, rfl⟩)]
+  · intro a w hm hr
+    rw [update_members_effect hu, if_neg hr]
+    exact addsView_mem (nodup_sortMembers hun) ((sortMembers_perm add).mem_iff.mpr hm) _
+  · intro k hr ha
+    rw [update_members_effect hu, if_neg hr]
+    apply addsView_not_mem
+    intro hk
+    exact ha (((sortMembers_perm add).map (·.1.text)).mem_iff.mp hk)
+
+/-- Non-vacuity: an address that is not a member, named in both lists, is not a member afterwards. -/
+example :
+    (match updateMembers exState 11 "adm" [⟨true, "zoe"⟩] [(⟨true, "zoe"⟩, 4)] with
+      | .ok r => (r.1.members.get? "zoe", r.1.members.get? "alice")
+      | .error _ => (some 0, none)) = (none, some 5) := by decide
+
 end CwPlus.Props.C09
